@@ -18,6 +18,8 @@
 (*   "grant" primitive-level grant of r observed (only when pl)             *)
 (*   "got"   the acquiring process of r continues past its acquire           *)
 (*   "rel"   r releases                                                      *)
+(*   "xrel"  r called release() again on a grant that was already released  *)
+(*           or taken away by preemption (documented no-op)                  *)
 (*   "tmo"   queued request r gave up (bulkhead queue timeout)               *)
 (*   "poll"  the engine delivered an event to the process of r while r was  *)
 (*           blocked, and r stayed blocked                                   *)
@@ -42,7 +44,7 @@ R(T) == 1..T.nr
 P0(T) == NewPrim(T.kind, T.cap, T.qmax, {})
 MH0(T) == [r \in R(T) |-> 0]
 O0(T) == [am |-> [r \in R(T) |-> 0], md |-> [r \in R(T) |-> "x"], ph |-> [r \in R(T) |-> "idle"],
-          border |-> <<>>, streak |-> 0]
+          border |-> <<>>, streak |-> 0, la |-> T.cap]
 V0 == [prop |-> "", ppos |-> 0, drift |-> "", dpos |-> 0]
 Dummy == [id |-> 0, kind |-> "fifo", cap |-> 1, qmax |-> 0, nr |-> 0, pl |-> FALSE, full |-> TRUE, log |-> <<>>]
 T1 == IF NT = 0 THEN Dummy ELSE Traces[1]
@@ -57,7 +59,7 @@ Held(oo, T) == { r \in R(T) : oo.ph[r] = "held" }
 \* ---- observed state update ------------------------------------------------
 ObsStep(oo, T, rec) ==
     LET op == rec[1]  r == rec[2]
-        o1 == [oo EXCEPT !.streak = IF op = "poll" THEN @ + 1 ELSE 0]
+        o1 == [oo EXCEPT !.streak = IF op = "poll" THEN @ + 1 ELSE 0, !.la = rec[6]]   \* la = last sampled avail
     IN CASE op = "req" ->
               [o1 EXCEPT !.am[r] = rec[3], !.md[r] = rec[4],
                          !.ph[r] = IF rec[5] = 2 THEN "gone" ELSE "wait",
@@ -87,6 +89,7 @@ Contract(o0, oo, T, rec) ==
         \* (every blocked process has looked at its wake-up flag since the last change)
         boundary == op \in {"q", "end"} \/ (op = "d" /\ T.pl) \/ frozen
     IN IF op = "grant" /\ T.pl /\ o0.ph[r] = "held" THEN "PROP:granted_twice"
+       ELSE IF op = "xrel" /\ avail # o0.la THEN "PROP:repeated_release_returns_capacity"
        ELSE IF held > T.cap THEN "PROP:over_admit"
        ELSE IF T.kind = "rwlock" /\ \E w \in H : oo.md[w] = "w" /\ H # {w} THEN "PROP:writer_not_exclusive"
        ELSE IF avail < 0 THEN "PROP:available_negative"
